@@ -26,17 +26,23 @@ def sh(cmd, cwd=None, env=None, timeout=3600):
 
 def main():
     pid, x, src = sys.argv[1], sys.argv[2], sys.argv[3]
-    also = sys.argv[sys.argv.index("--also") + 1:] if "--also" in sys.argv else []
+    also = []
+    if "--also" in sys.argv:
+        i = sys.argv.index("--also") + 1
+        while i < len(sys.argv) and not sys.argv[i].startswith("--"):
+            also.append(sys.argv[i]); i += 1
+    # the name under which the change is stored (second-round changes A/B of a property are stored as C/D)
+    label = sys.argv[sys.argv.index("--label") + 1] if "--label" in sys.argv else x
     patch = os.path.join(src, "patch_%s.diff" % x)
     demo = os.path.join(src, "demo_%s.py" % x)
     meta = json.load(open(os.path.join(src, "meta_%s.json" % x)))
-    out = os.path.join(VERIF, "seeded", "%s-%s" % (pid, x))
+    out = os.path.join(VERIF, "seeded", "%s-%s" % (pid, label))
     os.makedirs(out, exist_ok=True)
     shutil.copy(patch, os.path.join(out, "patch.diff"))
     shutil.copy(demo, os.path.join(out, "demo.py"))
     ran = {}
     # 1. confirm in a scratch worktree
-    wt = "/tmp/seedcheck_%s_%s" % (pid, x)
+    wt = "/tmp/seedcheck_%s_%s" % (pid, label)
     sh(["git", "-C", "/repo", "worktree", "remove", "--force", wt])
     rc, o = sh(["git", "-C", "/repo", "worktree", "add", "--detach", wt, "HEAD"])
     assert rc == 0, o
@@ -44,6 +50,14 @@ def main():
         env = {"PYTHONPATH": wt}
         ran["demo_unchanged_exit"] = sh([PY, os.path.join(out, "demo.py")], cwd=wt, env=env, timeout=1800)[0]
         rc, o = sh(["git", "apply", os.path.join(out, "patch.diff")], cwd=wt)
+        if rc != 0:
+            # the tree moved on since the change was written (later fix: commits touched neighbouring lines): re-base it
+            rc, o = sh(["git", "apply", "--3way", os.path.join(out, "patch.diff")], cwd=wt)
+            if rc == 0:
+                _, d = sh(["git", "diff", "HEAD"], cwd=wt)
+                open(os.path.join(out, "patch.diff"), "w").write(d)
+                sh(["git", "reset", "-q"], cwd=wt)
+                ran["patch_rebased"] = True
         ran["patch_applies"] = rc == 0
         rc, o = sh([PY, "-m", "pytest", "-q", "-p", "no:cacheprovider", "test"], cwd=wt, timeout=3600)
         ran["test_suite_with_change"] = o.strip().splitlines()[-1] if o.strip() else ""
@@ -85,7 +99,7 @@ def main():
                  "what_i_ran": ran, "check_results": results, "checks_ran_against": TARGET, "caught_by_target_check": caught,
                  "caught_with_concrete_input": concrete})
     json.dump(meta, open(os.path.join(out, "meta.json"), "w"), indent=1)
-    print(json.dumps({"id": "%s-%s" % (pid, x), "confirmed": ran["confirmed"], "caught": caught, "concrete": concrete,
+    print(json.dumps({"id": "%s-%s" % (pid, label), "confirmed": ran["confirmed"], "caught": caught, "concrete": concrete,
                       "results": {k: (v["exit"], v["wall_s"]) for k, v in results.items()}}))
 
 
